@@ -269,7 +269,10 @@ MUTANTS += [
     dict(prop='C12', name='lifo-per-flow-store-in-rr', edits=[(RRF, "                    packet: Packet = yield store.get()", "                    if len(store.items) > 2:\n                        store.items.reverse()\n                    packet: Packet = yield store.get()")]),
     dict(prop='C12', name='byte-counter-uses-fixed-size', edits=[(SBASE, "        self.queue_byte_size[flow_id] += packet.size", "        self.queue_byte_size[flow_id] += min(packet.size, 1500)")]),
     dict(prop='C12', name='monitor-included-adds-again', edits=[(MONF, "                if not self.service_included:", "                if self.service_included and False or not self.service_included and self.scheduler.total_packets > 2:")]),
-    dict(prop='C12', name='wfq-class-count-forgets-decrement-when-shared', edits=[(WFQF, "            self.class_count[class_id] -= 1\n", "            self.class_count[class_id] -= 1 if class_id == packet.flow_id else 2\n")]),
+    dict(prop='C12', name='wfq-class-count-forgets-decrement-when-shared', edits=[(WFQF, "        self.class_count[class_id] -= 1\n", "        self.class_count[class_id] -= 1 if class_id == packet.flow_id else 2\n")]),
+    dict(prop='C14', name='wfq-departure-bookkeeping-back-in-run', edits=[(WFQF,
+         "            yield env.process(self.send_packet(packet))\n\n    def packet_departed(self, packet: Packet):",
+         "            yield env.process(self.send_packet(packet))\n            self._late_departed(packet)\n\n    def _late_departed(self, packet: Packet):")]),
     # ---- C13
     dict(prop='C13', name='sp-ascending-sort', edits=[(SPF, "key=lambda item: item[1], reverse=True)", "key=lambda item: item[1], reverse=False)")]),
     dict(prop='C13', name='sp-no-rescan-again', edits=[(SPF, "                    # rescan from the highest priority after every transmission\n                    break\n", "")]),
@@ -345,6 +348,12 @@ TCPG = 'onl/packet/tcp_generator.py'
 TCPS = 'onl/packet/tcp_sink.py'
 MUTANTS += [
     # ---- C16
+    dict(prop='C16', name='sender-fetches-only-when-buffer-used-up', edits=[(TCPG,
+         "            while self.next_seq + self.mss > self.send_buffer and (",
+         "            while self.next_seq >= self.send_buffer and (")]),
+    dict(prop='C16', name='chunk-buffered-whole-past-the-end-of-the-flow', edits=[(TCPG,
+         "                    packet_size = min(packet_size, self.flow.size - self.send_buffer)",
+         "                    packet_size = packet_size if self.flow.size_dist else min(packet_size, self.flow.size - self.send_buffer)")]),
     dict(prop='C16', name='sink-acks-end-of-last-range', edits=[(TCPS, "            self.next_seq_expected = self.recv_buffer[0][1]\n        else:\n            self.next_seq_expected = 0", "            self.next_seq_expected = self.recv_buffer[-1][1]\n        else:\n            self.next_seq_expected = 0")]),
     dict(prop='C16', name='sink-acks-first-range-even-without-byte-0', edits=[(TCPS, "        if self.recv_buffer[0][0] == 0:", "        if self.recv_buffer[0][0] >= 0:")]),
     dict(prop='C16', name='timer-not-restarted-after-retransmission', edits=[(TCPG, "        self.rto *= 2\n        self.timers[packet_id].restart(self.rto)", "        self.rto *= 2\n        if self.rto < 16:\n            self.timers[packet_id].restart(self.rto)")]),
